@@ -530,7 +530,8 @@ class Body:
             # `let x = if c {a} else {b}`: join of the reaching definitions; loop-carried updates fall back to a leaf
             sites = self.defs_reaching(l, bb, idx)
             if sites:
-                e = mk_phi([self.rec_def(s_, depth + 1) for s_ in sites])
+                es = [self.rec_def(s_, depth + 1) for s_ in sites]
+                e = self._option_join(sites, es) or mk_phi(es)
                 if not contains(e, lambda x: x[0] == "rec"):
                     return e
             return ("var", name)
@@ -550,7 +551,48 @@ class Body:
             if mutated and name is None:
                 e = ("mutated", e)
             return e
-        return mk_phi([self.rec_def(s, depth + 1) for s in sites])
+        es = [self.rec_def(s, depth + 1) for s in sites]
+        return self._option_join(sites, es) or mk_phi(es)
+
+    def _option_join(self, sites, exprs):
+        """`if let Some(v) = x { v } else { d }` / `match x { Some(v) => v, None => d }`: the join of the Some-payload of x (defined under the Some edge of the
+        switch on x's discriminant) and a value defined under the None edge is `x.unwrap_or(d)`"""
+        if len(sites) != 2:
+            return None
+        for a, b_ in ((0, 1), (1, 0)):
+            sa = exprs[a]
+            while sa[0] == "mutated":
+                sa = sa[1]
+            if sa[0] != "try" or contains(exprs[b_], lambda x: x[0] in ("rec", "unknown")):
+                continue
+            X = sa[1]
+            for bi, blk in enumerate(self.blocks):
+                t = blk["term"]
+                if not t or t["k"] != "switch" or blk["cleanup"]:
+                    continue
+                d = self.rec_operand(t["discr"], bi, "T")
+                if d != ("discr", X):
+                    continue
+                # only Option (None = 0, Some = 1); for a Result the payload under `try` is the Ok side and 0/1 are the other way round
+                oty = None
+                for st in blk["stmts"]:
+                    if st["k"] == "assign" and st["rv"]["k"] == "discr" and not st["rv"]["place"]["p"]:
+                        oty = self.locals[st["rv"]["place"]["l"]]["ty"]
+                if not oty or not oty.lstrip("&").startswith(("std::option::Option<", "core::option::Option<")):
+                    continue
+                tg = {str(v): tgt for v, tgt in t["targets"]}
+                some, none = tg.get("1"), tg.get("0")
+                if some is None and none is not None:
+                    some = t["otherwise"]
+                if none is None and some is not None:
+                    none = t["otherwise"]
+                if some is None or none is None or some == none:
+                    continue
+                if list(self.preds(some)) != [bi] or list(self.preds(none)) != [bi]:
+                    continue
+                if (some == sites[a][0] or self.dominates(some, sites[a][0])) and (none == sites[b_][0] or self.dominates(none, sites[b_][0])):
+                    return ("call", "std::option::Option::unwrap_or", (X, exprs[b_]))
+        return None
 
     def _deref_first(self, site):
         bb, idx = site
@@ -615,6 +657,18 @@ class Body:
                 init = self.rec_def(self._defs[ls[0]][0], depth + 1)
                 if not contains(init, lambda x: x[0] in ("rec", "unknown")):
                     args = (init,)
+        if tp == "std::default::Default::default" and len(args) == 0:
+            # `CoinValue::default()` / `u128::default()`: the numeric zero (the wrapper of an integer newtype is not rendered)
+            dt = self._place_type(t.get("dest"))
+            base = NEWTYPES.get(dt, (None, dt))[1]
+            if base in INT_TYPES:
+                return ("const", base, 0)
+        if (tp == "std::default::Default::default" and len(args) == 0) or (path.endswith("Option::unwrap_or_default") and len(args) == 1):
+            # the all-zero hash: `HashVal::default()` is `HashVal([0; 32])`, `.unwrap_or_default()` on an Option<HashVal> is `.unwrap_or(HashVal([0; 32]))`
+            dt = self._place_type(t.get("dest"))
+            if dt == "tmelcrypt::HashVal":
+                z = ("agg", "tmelcrypt::HashVal", "HashVal", (("0", ("repeat", ("const", "u8", 0), "32")),))
+                return z if not args else ("call", path[:-len("unwrap_or_default")] + "unwrap_or", (args[0], z))
         if path.endswith("Option::unwrap_or_default") and len(args) == 1:
             # numeric default: `.unwrap_or_default()` ≡ `.unwrap_or(0)` (also for the integer newtypes, whose wrapper is not rendered)
             dt = self._place_type(t.get("dest"))
@@ -628,7 +682,23 @@ class Body:
             return None
         if pl["p"]:
             last = pl["p"][-1]
-            return last.get("ty") if last["k"] == "field" else None
+            if last["k"] == "field":
+                return last.get("ty")
+            if all(p_["k"] == "deref" for p_ in pl["p"]):
+                # `*r` / `**r` of a reference-typed local: the pointee type
+                ty = self.locals[pl["l"]]["ty"]
+                for _ in pl["p"]:
+                    if ty.startswith("&mut "):
+                        ty = ty[5:]
+                    elif ty.startswith("&"):
+                        ty = ty[1:].lstrip()
+                    else:
+                        return None
+                return ty
+            if last["k"] == "deref" and len(pl["p"]) >= 2 and pl["p"][-2]["k"] == "field":
+                ty = pl["p"][-2].get("ty") or ""
+                return ty[5:] if ty.startswith("&mut ") else (ty[1:].lstrip() if ty.startswith("&") else None)
+            return None
         return self.locals[pl["l"]]["ty"]
 
     def _op_type(self, op):
@@ -725,6 +795,9 @@ def simplify_call(path, args, trait_path=None):
             return ("call", "std::iter::Iterator::collect", (args[0],))          # `C::from_iter(it)` is `it.collect::<C>()`
     if path.split("::")[-1] == "unwrap_or_else" and ("Option" in path or "Result" in path) and len(args) == 2 and args[1][0] == "fn" and args[1][1].endswith("Default>::default"):
         return ("call", path[:-len("unwrap_or_else")] + "unwrap_or_default", (args[0],))          # `.unwrap_or_else(T::default)` is `.unwrap_or_default()`
+    if tp in ("std::ops::FnOnce::call_once", "std::ops::FnMut::call_mut", "std::ops::Fn::call") and len(args) == 2 and args[0][0] == "fn" and args[1][0] == "tuple":
+        # a function item called through a generic `impl FnOnce(..)` parameter (a helper spliced into its caller): the call itself
+        return simplify_call(args[0][1], tuple(args[1][1]))
     if path in ("std::mem::replace", "core::mem::replace") and len(args) == 2:
         return args[0]                  # the value of `mem::replace(&mut x, v)` is x as it was before the call (the write is seen by K7)
     if path in ("std::mem::take", "core::mem::take") and len(args) == 1:
@@ -737,6 +810,9 @@ def simplify_call(path, args, trait_path=None):
             return ("field", i[1], "1")          # v[i] for i the position of enumerate(v): the element itself
     if len(args) == 1 and path in ("core::slice::<impl [T]>::first", "std::slice::<impl [T]>::first"):
         return ("call", path[:-len("first")] + "get", (args[0], ("const", "usize", 0)))      # `.first()` is `.get(0)`
+    if len(args) == 3 and path.split("::")[-1] == "map_or_else" and "Option" in path:
+        pre = path[:-len("map_or_else")]          # x.map_or_else(d, f) is x.map(f).unwrap_or_else(d)
+        return simplify_call(pre + "unwrap_or_else", (("call", pre + "map", (args[0], args[2])), args[1]))
     if len(args) == 3 and path.split("::")[-1] == "map_or" and ("Option" in path or "Result" in path):
         pre = path[:-len("map_or")]          # x.map_or(d, f) is x.map(f).unwrap_or(d)
         return ("call", pre + "unwrap_or", (("call", pre + "map", (args[0], args[2])), args[1]))
@@ -758,9 +834,23 @@ def simplify_call(path, args, trait_path=None):
     return ("call", path, args)
 
 
+def zip_counter(e):
+    """A if e is an element of `A.zip(0..)`: the pair (x, position) — `enumerate()` with the components swapped"""
+    if e[0] == "elem" and e[1][0] == "call" and e[1][1].endswith("Iterator::zip") and len(e[1][2]) == 2:
+        r = strip(e[1][2][1])
+        if r[0] == "agg" and r[1].endswith("ops::RangeFrom") and len(r[3]) == 1 and r[3][0][1][0] == "const" and r[3][0][1][2] == 0:
+            return e[1][2][0]
+    return None
+
+
 def mk_field(e, name):
     if e[0] == "const" and name == "0" and e[1] in NEWTYPES:
         return e          # `MAX_COINVAL.0`: the wrapper of an integer newtype constant is not rendered
+    if name in ("0", "1"):
+        za = zip_counter(e)
+        if za is not None:
+            # `for (x, i) in v.iter().zip(0..)` is `for (i, x) in v.iter().enumerate()`
+            return ("field", ("elem", ("call", "std::iter::Iterator::enumerate", (za,))), "1" if name == "0" else "0")
     if e[0] == "agg":
         for (n, v) in e[3]:
             if n == name:
@@ -1096,6 +1186,7 @@ class Program:
             if not fn.endswith(".json") or fn == "meta.json":
                 continue
             crates.append(json.load(open(os.path.join(facts_dir, fn))))
+        _resolve_unique_impls(crates)
         # splice helper functions the rules do not know (not in the baseline inventory) into their callers
         from . import inline as _inl
         self.known = _inl.load_known() if os.environ.get("MELSTF_NO_INLINE") != "1" else None
@@ -1273,7 +1364,9 @@ def callee_name(t):
     f = t.get("fn")
     if not f:
         return "<indirect>"
-    return norm_name(f["resolved"] or f["path"])
+    n = norm_name(f["resolved"] or f["path"])
+    pr = _PROG[0]
+    return pr.alias_names.get(n, n) if pr is not None else n          # a known function found under a new path / name answers to its old name
 
 
 def callee_path(t):
@@ -1281,6 +1374,44 @@ def callee_path(t):
     if not f:
         return "<indirect>"
     return norm_name(f["path"])
+
+
+def _resolve_unique_impls(crates):
+    """a call of a workspace trait's method on a receiver the compiler cannot resolve (a provided method of the trait calling a sibling on `Self`): when the
+    trait has exactly one implementation of that method in the workspace, that implementation is the callee"""
+    import re
+    impls = {}
+    for j in crates:
+        for bj in j["bodies"]:
+            if bj["kind"] not in ("Fn", "AssocFn"):
+                continue
+            m = re.match(r"^([A-Za-z_0-9]+)::<.* as (.+)>::([A-Za-z_0-9]+)$", norm_name(bj["name"]))
+            if m:
+                tr = m.group(2)
+                tr = tr if tr.startswith(m.group(1) + "::") else m.group(1) + "::" + tr
+                tr = re.sub(r"<.*>$", "", tr)
+                impls.setdefault((tr, m.group(3)), []).append(bj)
+    if not impls:
+        return
+    for j in crates:
+        for bj in j["bodies"]:
+            for blk in bj["blocks"]:
+                t = blk.get("term")
+                if not t or t.get("k") != "call" or not t.get("fn"):
+                    continue
+                f = t["fn"]
+                if f.get("resolved") or f.get("resolved_kind") != "unresolved":
+                    continue
+                p = norm_name(f["path"])
+                if "::" not in p:
+                    continue
+                tr, meth = p.rsplit("::", 1)
+                c = impls.get((tr, meth), [])
+                if len(c) == 1:
+                    f["resolved"] = c[0]["name"]
+                    f["resolved_id"] = c[0]["id"]
+                    f["resolved_local"] = True
+                    f["resolved_kind"] = "unique-impl"
 
 
 def callee_id(t):
